@@ -72,6 +72,7 @@ fn explore_graph(name: &str, g: &GrammarSpec, f: &Factory, vocab: &VocabSpec, ma
     };
     let mut truncated = false;
     while let Some((mut m, id, depth)) = queue.pop_front() {
+        crate::watchdog::beat();
         out.states += 1;
         if m.is_error() {
             let h = hist_of(&nodes, id);
